@@ -716,11 +716,18 @@ class RewriteRuleSet:
                         continue
                     initializers = graph_or_function.initializers
                     for initializer in delta.new_initializers:
-                        if initializer.name in initializers:
-                            if verbose:
-                                print(f"Initializer {initializer.name} already exists.")
-                            continue
-                    for initializer in delta.new_initializers:
+                        name = initializer.name
+                        suffix = 0
+                        while (
+                            initializer.name in initializers
+                            and initializers[initializer.name] is not initializer
+                        ):
+                            # Another value (e.g. from an earlier application of a rule that derives
+                            # the name in the same way) has this name: do not displace it.
+                            if verbose and not suffix:
+                                print(f"Initializer {name} already exists.")
+                            suffix += 1
+                            initializer.name = f"{name}_{suffix}"
                         initializers[initializer.name] = initializer  # type: ignore[index]
                 # TODO: This does not yet handle the problem of determining the correct insertion point
                 # for inserted nodes in the case of patterns with multiple output-nodes. The following
